@@ -10,7 +10,7 @@
    new.  The frame condition of an operation is such a statement about the rows
    of the whole tree: every other row is unchanged, in unchanged order. *)
 From Coq Require Import List ZArith Bool Arith Permutation Sorted.
-From NT Require Import Sx Rose Surgery SurgeryFacts Machine MachineFacts Effects FrameTrees.
+From NT Require Import Sx Rose Surgery SurgeryFacts Machine MachineFacts Effects FrameTrees EffectsClones.
 Import ListNotations.
 
 (* ---- where add_child puts the new node ---- *)
@@ -157,6 +157,19 @@ Theorem C04_remove : forall w ti n keep r w',
 Proof. exact remove_effect. Qed.
 Print Assumptions C04_remove.
 
+(* ---- remove() / remove(with_clones=True) against the structural specification [prune V f] = f without
+        every branch whose root is in V (all other nodes keep payload, parent and order): the machine's
+        sequence of path surgeries (which skips clones that went away with an outer clone) is prune of the
+        node resp. of its whole clone group as listed by the index ---- *)
+Theorem C04_remove_with_clones : forall w ti n wc r w',
+  step w (ORemove ti n false wc) = (Ok r, w') ->
+  exists t t' d,
+    get_tree w ti = Some t /\ get_tree w' ti = Some t' /\ did_of n (forest_of t) = Some d /\
+    (NoDup (ids (forest_of t)) ->
+     forest_of t' = prune (if wc then filter (fun c => negb (Nat.eqb c n)) (idx_get d (idx t)) ++ [n] else [n]) (forest_of t)).
+Proof. exact remove_prune. Qed.
+Print Assumptions C04_remove_with_clones.
+
 (* ---- move_to: the branch is cut out (rows A ++ branch ++ B -> A ++ B) and inserted under the
         target at the documented position of the child list AFTER the cut; only the top row of
         the branch changes (its parent); registry and index are untouched ---- *)
@@ -299,3 +312,9 @@ Example C04_sort_deep_nonvacuous :
   let t := T 1 dummy_info [T 2 dummy_info []; T 3 dummy_info []] in
   exists t', sort_deep 5 k false t false = (t', false) /\ map rid (rch t') = [3; 2].
 Proof. eexists. split; vm_compute; reflexivity. Qed.
+Definition w3 : world := run [OAdd 0 2 dA None None BNone; OAdd 0 0 dB None None BNone] w2.   (* a > b > a', b'' : nested clone of a *)
+Example C04_remove_with_clones_nonvacuous :
+  exists r w', step w3 (ORemove 0 3 false true) = (Ok r, w') /\
+               map rid (forest_of (nth 0 (trees w') (TS [] [] [] false None))) = [4] /\
+               map rid (prune [1; 3] (forest_of (nth 0 (trees w3) (TS [] [] [] false None)))) = [4].
+Proof. eexists _, _. repeat split; vm_compute; reflexivity. Qed.
